@@ -101,6 +101,8 @@ def main():
                 checks[p] = dict(exit=rc, violations=viol[:6], replays=reps, wall_s=round(time.time() - t0, 1))
         finally:
             sh("git -C /repo checkout -- .")
+            # the shape facts regenerated from the changed tree must not linger
+            sh("git -C %s checkout lean/TV/Generated/Shape.lean" % ROOT)
             rc, o = sh("git -C /repo status --porcelain")
             assert o.strip() == "", "/repo still dirty: " + o
     result["checks"] = checks
